@@ -10,6 +10,7 @@ import (
 	"fmt"
 	"strconv"
 	"strings"
+	"time"
 
 	"go.amzn.com/lambda/interop"
 	"go.amzn.com/verifh/hx"
@@ -59,9 +60,15 @@ type step struct {
 	Event string // shape of the event
 	Resp  string // shape of the response / error body
 	Ctx   string // absent | json | binary | invalid
+	// InitMs (first step only): every runtime generation of this history sleeps this long before its first
+	// next, so invocations arrive while the environment is still initialising
+	InitMs int
 }
 
 func (s step) String() string {
+	if s.InitMs > 0 {
+		return fmt.Sprintf("%s(ev=%s,resp=%s,ctx=%s,init=%dms)", s.Kind, s.Event, s.Resp, s.Ctx, s.InitMs)
+	}
 	return fmt.Sprintf("%s(ev=%s,resp=%s,ctx=%s)", s.Kind, s.Event, s.Resp, s.Ctx)
 }
 
@@ -106,6 +113,9 @@ func body(h history) (func(), *stack.Config) {
 		sched.Cur().Values["rec"] = r
 		delivered := 0 // invocations delivered to any runtime generation so far
 		cfg.Runtime = func(rt *stack.Actor) {
+			if h[0].InitMs > 0 {
+				rt.Sleep(time.Duration(h[0].InitMs) * time.Millisecond)
+			}
 			for {
 				n := rt.Next()
 				if n.Status != 200 {
@@ -332,11 +342,13 @@ func init() {
 		// first steps: every kind x a representative set of shapes
 		var firsts []step
 		for i, ev := range shapes {
-			firsts = append(firsts, step{"ok", ev, shapes[(i+2)%len(shapes)], ctxs[i%3]})
-			firsts = append(firsts, step{"fnerror", ev, shapes[(i+1)%len(shapes)], ctxs[(i+1)%3]})
+			firsts = append(firsts, step{"ok", ev, shapes[(i+2)%len(shapes)], ctxs[i%3], 0})
+			firsts = append(firsts, step{"fnerror", ev, shapes[(i+1)%len(shapes)], ctxs[(i+1)%3], 0})
 		}
-		firsts = append(firsts, step{"timeout", "64k", "a", "absent"}, step{"crash", "limit", "a", "json"}, step{"oversize-response", "a", "limit+1", "absent"},
-			step{"ok", "a", "a", "invalid"}, step{"timeout", "limit", "a", "binary"}, step{"crash", "empty", "a", "absent"})
+		firsts = append(firsts, step{"timeout", "64k", "a", "absent", 0}, step{"crash", "limit", "a", "json", 0}, step{"oversize-response", "a", "limit+1", "absent", 0},
+			step{"ok", "a", "a", "invalid", 0}, step{"timeout", "limit", "a", "binary", 0}, step{"crash", "empty", "a", "absent", 0},
+			// invocations that arrive while the environment initialises (deadline = arrival + timeout all the same)
+			step{"ok", "a", "a", "absent", 800}, step{"fnerror", "64k", "a", "json", 800}, step{"crash", "a", "a", "binary", 800})
 		var out []hx.Scenario
 		for _, f := range firsts {
 			f := f
@@ -350,7 +362,7 @@ func init() {
 						if kind2 == "fnerror" && si%2 == 1 {
 							continue
 						}
-						h := history{f, step{kind2, ev, shapes[(si+3)%len(shapes)], ctxs[(si+k)%3]}, step{"ok", "a", "nul", "json"}}
+						h := history{f, step{kind2, ev, shapes[(si+3)%len(shapes)], ctxs[(si+k)%3], 0}, step{"ok", "a", "nul", "json", 0}}
 						k++
 						if c.Replay != nil && fmt.Sprint(c.Replay.Input) != h.name() {
 							continue
